@@ -90,6 +90,7 @@ type VC struct {
 	rangeIdx  []rangeInfo
 	entry     *State
 	lemmaName string
+	canary    *Obligation
 }
 
 type frame struct {
